@@ -36,6 +36,12 @@ MODULES = {
 
 
 def main():
+    try:    # `kill -USR1 <pid>` prints the Python stack of a (worker) process: for diagnosing a harness that seems stuck
+        import faulthandler
+        import signal
+        faulthandler.register(signal.SIGUSR1, all_threads=True)
+    except Exception:
+        pass
     _reexec_if_needed()
     ap = argparse.ArgumentParser()
     ap.add_argument("pid")
